@@ -142,6 +142,21 @@ def run_twin(workdir, name, tw, cfg_a="u", cfg_b=None, embed=None):
             diffs.append((ia, ib, comp, va, vb))
         if diffs:
             break
+    # a callback that ran although it is not registered, or that got stale user data (detected by the harness itself, which
+    # knows what it last told the library — also from inside callbacks), is a difference in its own right
+    xd = []
+    for side, rr in (("a", ra), ("b", rb)):
+        try:
+            k = -1
+            for line in open(rr.trace_path):
+                if line.startswith("O "): k = int(line.split()[1])
+                elif line.startswith("X callback"):
+                    xd.append((k, k, "X(%s)" % side, line.strip(), ""))
+                    break
+        except OSError:
+            pass
+    if xd and (not diffs or xd[0][0] <= diffs[0][0]):
+        diffs = xd + diffs
     return diffs, n, fails, ra, rb
 
 # ------------------------------------------------------------------------------------------
